@@ -10,6 +10,7 @@
 (* touches LOCATIONS of three classes:                                       *)
 (*   "global"  process-wide variables of the library                         *)
 (*   "schema"  the compiled module every browser shares                      *)
+(*   "browser" a browser object that several goroutines ask for selections   *)
 (*   "own"     what the operation creates itself, and its goroutine's tree   *)
 (* The DESIGN is the table Design: loading touches only what it creates;     *)
 (* every other operation reads the schema and writes only what it owns.      *)
@@ -23,10 +24,13 @@
 (***************************************************************************)
 EXTENDS Integers, Sequences, FiniteSets, TLC
 
-Kinds == {"load", "schema", "export", "xml", "upsert", "find"}
+Kinds == {"load", "schema", "export", "xml", "upsert", "find", "sexport"}
 
+\* "sexport" serialises a tree of its own obtained from ONE browser object that all goroutines use
+\* (a server keeps one browser per module; its source hands every request a fresh root node)
 Design(kind) ==
     IF kind = "load" THEN { [loc |-> "own", mode |-> "w"] }
+    ELSE IF kind = "sexport" THEN { [loc |-> "schema", mode |-> "r"], [loc |-> "browser", mode |-> "r"], [loc |-> "own", mode |-> "w"] }
     ELSE { [loc |-> "schema", mode |-> "r"], [loc |-> "own", mode |-> "w"] }
 
 \* the pinned commit: every `uses' statement parsed increments a package variable
@@ -38,7 +42,7 @@ Pinned(kind) ==
 LazyCache(kind) ==
     IF kind = "find" THEN Design(kind) \cup { [loc |-> "schema", mode |-> "w"] } ELSE Design(kind)
 
-IsShared(loc) == loc \in {"global", "schema"}
+IsShared(loc) == loc \in {"global", "schema", "browser"}
 
 Conflict(A(_), k1, k2) ==
     \E a \in A(k1), b \in A(k2) : a.loc = b.loc /\ IsShared(a.loc) /\ (a.mode = "w" \/ b.mode = "w")
